@@ -134,6 +134,30 @@ def c09_4(c: Ctx) -> None:
             c.fail(d, f'appends {U(w.node)[:60]}', 'something other than the dispatched event is recorded as the child', node=w.node)
 
 
+def _neg(e: ast.AST) -> str | None:
+    if isinstance(e, ast.UnaryOp) and isinstance(e.op, ast.Not):
+        return U(e.operand)
+    if isinstance(e, ast.Compare) and len(e.ops) == 1:
+        flip = {ast.Is: 'is not', ast.IsNot: 'is', ast.Eq: '!=', ast.NotEq: '==', ast.In: 'not in', ast.NotIn: 'in'}.get(type(e.ops[0]))
+        if flip:
+            return f'{U(e.left)} {flip} {U(e.comparators[0])}'
+    if isinstance(e, (ast.Name, ast.Attribute, ast.Call)):
+        return None  # `not x` is not in any whitelist
+    return None
+
+
+def negated_conjuncts(test: ast.AST) -> list[str] | None:
+    """Conjuncts that hold on the else-branch of `if test` (De Morgan on a disjunction)."""
+    dis = test.values if isinstance(test, ast.BoolOp) and isinstance(test.op, ast.Or) else [test]
+    out = []
+    for d in dis:
+        n = _neg(d)
+        if n is None:
+            return None
+        out.append(n)
+    return out
+
+
 def check_child_registration_guards(c: Ctx) -> None:
     """The children append may be conditional only on: a handler context exists, the current event is known and has a result for that
     handler, the dispatched event is not the event being handled, and the event was accepted (queue present)."""
@@ -157,7 +181,11 @@ def check_child_registration_guards(c: Ctx) -> None:
             in_body = q.lexically_in(w.node, a, 'body')
             conj = a.test.values if isinstance(a.test, ast.BoolOp) and isinstance(a.test.op, ast.And) else [a.test]
             if not in_body:
-                bad.append(f'else-branch of `{U(a.test)[:60]}`')
+                neg = negated_conjuncts(a.test)
+                if neg is None:
+                    bad.append(f'else-branch of `{U(a.test)[:60]}`')
+                else:
+                    bad.extend(x for x in neg if x not in allowed)
                 continue
             for x in conj:
                 if U(x) not in allowed:
